@@ -123,23 +123,13 @@ def measureVP (lt : List Tok) (rest : List Piece) : Nat :=
 
 /-! ### the loop -/
 
-theorem measureLoop_succ (x f line len : Nat) (rem : List Tok) :
-    measureLoop x (f + 1) line len rem =
-      match rem.head?, rem[x]?, rem[x - 1]? with
-      | some r0, some rx, some rn =>
-        if rem.length > x && r0.line == line + 1 && rx.line == line + 1 && rx.id == idColon then
-          measureLoop x f r0.line (max len rn.text.length) ((rem.drop (x + 1)).dropWhile (·.line == r0.line))
-        else len
-      | _, _, _ => len := by
-  rw [measureLoop]
-
 /-- the next token is not on the next line: the loop stops -/
 theorem measureLoop_stop (x f line len : Nat) (rem : List Tok)
     (h : ∀ t, rem.head? = some t → t.line ≠ line + 1) : measureLoop x f line len rem = len := by
   cases f with
   | zero => rfl
   | succ f =>
-    rw [measureLoop_succ]
+    rw [measureLoop]
     split
     · rename_i r0 rx rn h0 _ _
       have := h r0 h0
@@ -155,7 +145,7 @@ theorem measureLoop_line (x f line len : Nat) (hx : 1 ≤ x) (G R : List Tok) (h
       | some rx, some rn =>
         if rx.id == idColon then measureLoop x f (line + 1) (max len rn.text.length) R else len
       | _, _ => len := by
-  rw [measureLoop_succ]
+  rw [measureLoop]
   obtain ⟨g0, gs, rfl⟩ : ∃ g0 gs, G = g0 :: gs := by
     cases G with
     | nil => exact absurd rfl hG
